@@ -111,7 +111,7 @@ class IndCfg:
         if self.rv != 4:
             kw["round_value"] = self.rv
         if self.timeframe:
-            kw["timeframe"] = self.timeframe
+            kw["timeframe"] = self.timeframe_arg()
         if standalone:
             if self.fill:
                 kw["timeframe_fill"] = True
@@ -119,8 +119,22 @@ class IndCfg:
                 kw["candles_lifespan"] = self.lifespan
             if self.ctype:
                 kw["candlestick_type"] = self.ctype
-        kw.update(self.extra)
+        kw.update({k: v for k, v in self.extra.items() if not k.startswith("_")})
         return kw
+
+    def timeframe_arg(self):
+        """the timeframe as the caller spells it: upper case, lower case or the TimeFrame enum"""
+        form = self.extra.get("_tf_form", "upper") if self.extra else "upper"
+        tf = self.timeframe
+        if form == "lower":
+            return tf.lower()
+        if form == "enum":
+            from hexital import TimeFrame
+
+            for member in TimeFrame:
+                if member.value == tf.upper():
+                    return member
+        return tf
 
     def analysis_args(self):
         """keyword arguments of the wrapped analysis function (Amorph)"""
